@@ -5,12 +5,12 @@
    "an all-zero field takes one full-length step".  Lengths are integers (L = total, K = phi_max /
    gamma in units where a peak p gives the step K / p; peaks divide K).
    pc: "first" -> "loop" -> "last" -> "done".
-     first: h := step(peak of the input);   x := h
+     first: h := step(peak of the input);   x := h          (step(p) = min(K / p, L): never beyond the fibre end)
      loop : propagate h; h := step(peak of the new field); IF x + h > L THEN goto last ELSE x := x + h
      last : h := L - x; propagate h if h # 0; done
    The environment chooses the peak after every propagation step. *)
 EXTENDS Integers, Sequences, FiniteSets, TLC
-CONSTANTS L, K, Peaks, Guarded         \* Guarded = TRUE: design with the zero-peak guard; FALSE: the unguarded original
+CONSTANTS L, K, Peaks, Guarded, Clamped   \* Guarded: zero-peak guard present; Clamped: steps limited to the fibre length (FALSE = the originals)
 VARIABLES pc, h, x, total, steps
 vars == <<pc, h, x, total, steps>>
 Num(n) == <<"num", n>>
@@ -21,7 +21,9 @@ Add(a, b) == IF IsNum(a) /\ IsNum(b) THEN Num(a[2] + b[2]) ELSE IF a = NaN \/ b 
 Sub(a, b) == IF IsNum(a) /\ IsNum(b) THEN Num(a[2] - b[2]) ELSE IF a = NaN \/ b = NaN THEN NaN ELSE IF IsNum(a) THEN NaN ELSE IF IsNum(b) THEN Inf ELSE NaN
 Gt(a, b) == IF IsNum(a) /\ IsNum(b) THEN a[2] > b[2] ELSE IF a = NaN \/ b = NaN THEN FALSE ELSE a = Inf /\ IsNum(b)
 \* step for a given peak; a non-finite previous step poisons the field (NaN power)
-Step(p, poisoned) == IF poisoned THEN NaN ELSE IF p = 0 THEN (IF Guarded THEN Num(L) ELSE Inf) ELSE Num(K \div p)
+Min(a, b) == IF a < b THEN a ELSE b
+Step(p, poisoned) == IF poisoned THEN NaN ELSE IF p = 0 THEN (IF Guarded THEN Num(L) ELSE Inf)
+                     ELSE Num(IF Clamped THEN Min(K \div p, L) ELSE K \div p)
 Poisoned == ~IsNum(h)
 Init == pc = "first" /\ h = Num(0) /\ x = Num(0) /\ total = Num(0) /\ steps = 0
 First == /\ pc = "first"
@@ -42,7 +44,11 @@ Last == /\ pc = "last"
 Next == First \/ Loop \/ Last
 Spec == Init /\ [][Next]_vars /\ WF_vars(Next)
 \* ---- the property of the controller
-StepsSumToLength == pc = "done" => total = Num(L)             \* also when the first step overshoots and the last is negative
+StepsSumToLength == pc = "done" => total = Num(L)
+\* the field is never propagated beyond the fibre end and never backwards (an unclamped first step on a weak input overshoots by orders
+\* of magnitude: with loss the field underflows to zero and the negative correction step turns it into NaN)
+WithinFibre == IsNum(x) => x[2] <= L
+NeverBackward == IsNum(h) => h[2] >= 0
 FiniteSteps == IsNum(h) /\ IsNum(x) /\ IsNum(total)
 BoundedWork == steps <= L + 2                                  \* every loop step advances by at least one unit
 Terminates == <>(pc = "done")
